@@ -72,6 +72,7 @@ class Ctx:
         self.t0 = time.time()
         self.violations = []          # (key, what, replay_path, no_input)
         self.known_hits = []
+        self.known_printed = set()
         self.obligations = 0
         self.discharged = 0
         self.coverage = {}
@@ -100,7 +101,9 @@ class Ctx:
         if kf is not None:
             if key not in self.known_hits:
                 self.known_hits.append(key)
-                print("KNOWN-FINDING: property=%s %s [%s]" % (self.prop, kf.get("what", what), key), flush=True)
+                if kf["key"] not in self.known_printed:      # one line per listed finding, however many witnesses hit it
+                    self.known_printed.add(kf["key"])
+                    print("KNOWN-FINDING: property=%s %s [first witness: %s]" % (self.prop, kf.get("what", what), key), flush=True)
             return False
         h = hashlib.sha256(key.encode()).hexdigest()[:12]
         path = os.path.join(REPLAYS, "%s_%s.json" % (self.prop, h))
